@@ -37,7 +37,7 @@ META = {
         'BASE (documented as preserved), DEF FN when ALL is given, DEFtype when MERGE is given, the RND sequence, event '
         'traps; the outcome when the chained program plus COMMON data no longer fit (Out of memory: case discarded and '
         'counted). Event traps are part of the generated state but their reset is not probed (the statement does not list '
-        'them). A surviving FOR/WHILE frame is only observable through the NEXT/WEND that closes the loop the reset was in.'),
+        'them). Survival probes are three-valued: only the outcome that proves survival (Duplicate Definition, a value, the old handler running) is a violation, success means cleared, any other error (Out of memory under a tight CLEAR ,n) is counted as an inconclusive probe. A surviving FOR/WHILE frame is only observable through the NEXT/WEND that closes the loop the reset was in.'),
     'rule': ('case = (state program P1, action, chained program); distinct by the full text; non-trivial = the state held at '
              'least 3 variables with non-default values and the action was reached (cases ending in Out of memory / Out of '
              'string space while building or chaining are discarded and counted)'),
@@ -51,7 +51,9 @@ META = {
         'def_fn_probed', 'deftype_probed', 'option_base_probed', 'trap_probed', 'rnd_probed', 'directed_cases',
         'base_dim_erase_histories_replayed', 'history_with_subscript_error', 'history_with_duplicate_definition',
         'reset_inside_error_handler', 'reset_inside_event_handler', 'closing_resume_raised_error',
-        'failed_chain_then_string_churn', 'states_with_fielded_strings', 'fielded_strings_in_common']},
+        'failed_chain_then_string_churn', 'states_with_fielded_strings', 'fielded_strings_in_common',
+        'same_named_scalar_and_array:only_array_common', 'same_named_scalar_and_array:only_scalar_common',
+        'same_named_scalar_and_array:both_common']},
     'timeout': {'quick': 600, 'thorough': 7200},
 }
 
@@ -234,6 +236,16 @@ def gen_case(rng):
                 cells[(i,)] = _value(rng, '$', long_ok=True)
         arrays['L9$'] = ([n], cells, True)
         awritten['L9$'] = 'L9$'
+    # ---- a scalar and an array that share their name (A and A(), B$ and B$()): COMMON names them separately
+    c.twins = []
+    if arrays and rng.random() < 0.45:
+        f = rng.choice(sorted(arrays))
+        if f not in scalars and f != 'L9$':
+            v, text = _value(rng, f[-1])
+            scalars[f] = v
+            written[f] = (awritten[f], text)
+        if f in scalars and f in written:
+            c.twins.append(f)
     # ---- strings that live in the FIELD buffer of an open random file (scalars and an array element)
     field_lines = []
     if rng.random() < 0.3:
@@ -303,6 +315,16 @@ def gen_case(rng):
                 else:
                     items.append(rng.choice(['Z8%', 'Z9$', 'ZQ()', 'Z7!']))
             common_stmts.append('COMMON ' + ','.join(items))
+        for f in c.twins:
+            # each combination of which of the two is declared
+            nm = written[f][0] if rng.random() < 0.6 else f
+            which = rng.choice(['array', 'array', 'scalar', 'both', 'none'])
+            if which in ('array', 'both'):
+                common_stmts.append('COMMON %s()' % nm)
+                commons_a.add(f)
+            if which in ('scalar', 'both'):
+                common_stmts.append('COMMON %s' % nm)
+                commons_s.add(f)
     all_ = c.action in ('chain_all', 'chain_merge_all')
     merge = c.action.startswith('chain_merge')
     # ---- P1: setup lines
@@ -638,6 +660,11 @@ def run_case(c, res, harness, rnd_ref):
                 res.count('reset_inside_error_handler')
             if 'event' in c.ctx:
                 res.count('reset_inside_event_handler')
+            for f in getattr(c, 'twins', []):
+                if c.chain and not c.all_:
+                    res.count('same_named_scalar_and_array:%s_common' % {
+                        (True, True): 'both', (True, False): 'only_scalar', (False, True): 'only_array', (False, False): 'neither'}[
+                        (f in c.keep_s, f in c.keep_a)])
             if getattr(c, 'fielded', 0):
                 res.count('states_with_fielded_strings')
                 if c.chain and any(f in c.keep_s for f in ('F7$', 'G8$', 'H9$')) or 'K9$' in c.keep_a:
@@ -745,7 +772,9 @@ def _check_api(c, box, viol, res, harness, rnd_ref):
                 stmt = 'PRINT ' + ';'.join('LEN(%s(%s))' % (f, ','.join('%d' % i for i in idx)) for idx in part)
                 out = box.ex(stmt.encode('ascii'))
                 exp = b''.join(b' %d ' % len(cells[idx][0]) for idx in part) + b'\r\n'
-                if out != exp:
+                if harness.err_of(out)[0] in (7, 14):
+                    res.count('inconclusive_probes')
+                elif out != exp:
                     viol('common-string-array-length-changed', '%s gives %r, expected %r' % (stmt, out, exp))
         if got == want:
             res.count('common_arrays_preserved')
@@ -763,15 +792,21 @@ def _check_api(c, box, viol, res, harness, rnd_ref):
             viol('array-survives', 'array %s is still dimensioned: %r' % (f, str(got)[:120]))
             continue
         out = box.ex(('DIM %s(1)' % f).encode('ascii'))
-        if out != b'':
+        if out == b'':
+            res.count('non_common_cleared')
+        elif out == b'Duplicate Definition' + E:
             viol('array-survives', 'DIM %s(1) after the reset: %r' % (f, out))
         else:
-            res.count('non_common_cleared')
+            res.count('inconclusive_probes')        # e.g. Out of memory: says nothing about survival
     # scalars
     for f in c.probe_names:
         v = c.scalars.get(f)
         kept = f in c.keep_s
-        got = box.get(f)
+        try:
+            got = box.get(f)
+        except harness.error.BASICError:
+            res.count('inconclusive_probes')        # reading creates the variable: no room for it
+            continue
         if kept:
             if v is None:
                 continue
@@ -794,24 +829,40 @@ def _check_api(c, box, viol, res, harness, rnd_ref):
         for name in c.fns:
             out = box.ex(('PRINT %s(2)' % name).encode('ascii'))
             res.count('def_fn_probed')
-            if out != b'Undefined user function' + E:
+            if out == b'Undefined user function' + E:
+                pass
+            elif harness.err_of(out)[0] == 0 and out.strip():
                 viol('def-fn-survives', 'PRINT %s(2) after the reset: %r' % (name, out))
+            else:
+                res.count('inconclusive_probes')
     # DEFtype: an implicit name must be single precision again
     if not (chain and c.merge):
         for letter in sorted(l for l, s in c.deftype.items() if s != '!')[:2]:
             out = box.ex(('%sQ9=5' % letter).encode('ascii'))
-            got = box.get('%sQ9!' % letter)
+            try:
+                got = box.get('%sQ9!' % letter)
+            except harness.error.BASICError:
+                got = None
             res.count('deftype_probed')
-            if out != b'' or got != 5.0:
+            if out == b'' and got == 5.0:
+                pass
+            elif (out == b'' and got == 0.0) or out == b'Type mismatch' + E:
+                # the value went into a variable of another type / the name is still a string name
                 viol('deftype-survives', '%sQ9=5 after the reset printed %r and %sQ9! is %r (DEFtype was %s)' % (
                     letter, out, letter, got, c.deftype[letter]))
+            else:
+                res.count('inconclusive_probes')
     # OPTION BASE
     if c.base == 1 and not chain:
         out = box.ex(b'DIM ZB9%(2)')
         got = box.get('ZB9%()')
         res.count('option_base_probed')
-        if out != b'' or len(got) != 3:
+        if out == b'' and len(got) == 3:
+            pass
+        elif out == b'' and len(got) == 2:
             viol('option-base-survives', 'DIM ZB9%%(2) after the reset gives %d elements (%r)' % (len(got), out))
+        else:
+            res.count('inconclusive_probes')
     # a handler that was active must be forgotten
     out = box.ex(b'RESUME')
     if out != b'RESUME without error' + E:
@@ -824,13 +875,20 @@ def _check_api(c, box, viol, res, harness, rnd_ref):
     if c.trap:
         out = box.ex(b'ERROR 77')
         res.count('trap_probed')
-        if out != b'Deadlock' + E:
+        if out == b'Deadlock' + E:
+            pass
+        elif b'OLDTRAP' in out or harness.err_of(out)[0] != 77:
+            # the error did not come back as itself: something caught it
             viol('error-trap-survives', 'ERROR 77 after the reset: %r' % out[:120])
+        else:
+            res.count('inconclusive_probes')
     # random sequence
     if not chain and (c.rnd_moves or c.randomize is not None):
         out = box.ex(b'PRINT RND;RND')
         res.count('rnd_probed')
-        if out != rnd_ref:
+        if harness.err_of(out)[0] != 0:
+            res.count('inconclusive_probes')
+        elif out != rnd_ref:
             viol('rnd-sequence-survives', 'PRINT RND;RND after the reset: %r, fresh session: %r' % (out, rnd_ref))
 
 
@@ -908,6 +966,15 @@ def directed_cases():
     out.append(_hand('chain', S + ['30 CHAIN "P2",5000', '40 COMMON B$,C#,D()'] + T,
                      p2=P2, p2name='P2', expected_out=b'#C\r\nRETURN without GOSUB in 5010' + E, closer='return',
                      keep_s=['B$', 'C#'], keep_a=['D!'], **ch))
+    # a scalar and an array of the same name, only one of them COMMON
+    tw = dict(scalars={'A!': 5.0, 'B$': b'sc'}, arrays={'A!': ([3], {(1,): (7.0, '')}, True), 'B$': ([2], {(2,): (b'arr', '')}, True)})
+    TW = ['10 A=5:DIM A(3):A(1)=7:B$="s"+"c":DIM B$(2):B$(2)="ar"+"r"']
+    out.append(_hand('chain', TW + ['20 COMMON A(),B$', '30 CHAIN "P2"'], p2=P2, p2name='P2',
+                     expected_out=b'#C\r\nRETURN without GOSUB in 5010' + E, closer='return', keep_s=['B$'], keep_a=['A!'], **tw))
+    out.append(_hand('chain', TW + ['20 COMMON A,B$()', '30 CHAIN "P2"'], p2=P2, p2name='P2',
+                     expected_out=b'#C\r\nRETURN without GOSUB in 5010' + E, closer='return', keep_s=['A!'], keep_a=['B$'], **tw))
+    out.append(_hand('chain_merge', TW + ['20 COMMON A(),B$()', '30 CHAIN MERGE "P2",5000'], p2=P2, p2name='P2',
+                     expected_out=b'#C\r\nRETURN without GOSUB in 5010' + E, closer='return', keep_s=[], keep_a=['A!', 'B$'], **tw))
     out.append(_hand('chain_all', S + ['30 FOR I%=1 TO 2:CHAIN "P2",,ALL', '40 NEXT'] + T,
                      ctx=['for'], p2=P2, p2name='P2', expected_out=b'#C\r\nRETURN without GOSUB in 5010' + E, closer='return',
                      keep_s=['A%', 'B$', 'C#'], keep_a=['D!', 'E$'], **ch))
